@@ -65,6 +65,8 @@ pub struct Trace {
     /// decisions with more than one runnable task
     pub contested: u64,
     pub max_tasks: u32,
+    /// the scheduler stopped the execution: no progress event for NO_PROGRESS_STEPS steps
+    pub livelock: bool,
 }
 
 impl Trace {
@@ -190,7 +192,8 @@ impl Scheduler for SimScheduler {
                 self.last_progress = p;
                 self.last_progress_step = step;
             } else if step - self.last_progress_step > NO_PROGRESS_STEPS {
-                // declare a livelock: shuttle reports "no task was scheduled"
+                // declare a livelock: returning None makes shuttle stop this execution
+                self.trace.lock().unwrap().livelock = true;
                 return None;
             }
         }
